@@ -17,7 +17,8 @@ import (
 	"verif/harness/wire"
 )
 
-// reloadMain (C10, end-to-end tier): the cache a collector starts from is loaded from a file while, at a
+// reloadMain (C10 and C04, end-to-end tier; for C04 it is "the latest template announced by that exporter" across
+// the one moment in which the cache has two writers, the start-up load and the exporters): the cache a collector starts from is loaded from a file while, at a
 // busy site, exporters are already sending - and some of them re-announce a template with a new
 // definition in that very moment. Whatever the order in which the start-up load and those announcements
 // are carried out internally, the announcement is the later event: once both are done, data of such an
@@ -28,7 +29,7 @@ import (
 // of 30 keys the moment the sockets are bound, waits until a template that only the file knows decodes
 // (the load has finished), and then sends data encoded under the NEW definitions.
 func reloadMain(args mon.Args) {
-	run := mon.NewRun("C10", "e2e/reload", "exploration")
+	run := mon.NewRun(args.Prop, "e2e/reload", "exploration")
 	var err error
 	snapE, err = wire.LoadSnapshot(mon.Root())
 	if err != nil {
@@ -259,7 +260,7 @@ func reloadMain(args mon.Args) {
 	}
 	run.Set("redefinitions_sent_while_the_collector_was_starting", redefs)
 	run.Set("collector_starts_on_large_cache_files", rounds)
-	run.SetRule("end-to-end tier of C10: the real binary is started on library-built cache files of 6 000 / 20 000 / 40 000 templates per protocol; the moment its UDP sockets exist 30 exporters per protocol re-announce their template with a different definition; once a file-only template decodes (the start-up load is complete) data encoded under the new definitions is sent and every message at the sink must equal its stand-alone decode under the NEW definition. distinct = cache size")
+	run.SetRule("end-to-end tier of "+args.Prop+": the real binary is started on library-built cache files of 6 000 / 20 000 / 40 000 templates per protocol; the moment its UDP sockets exist 30 exporters per protocol re-announce their template with a different definition; once a file-only template decodes (the start-up load is complete) data encoded under the new definitions is sent and every message at the sink must equal its stand-alone decode under the NEW definition. distinct = cache size")
 	run.Assume("whether the load happens before or concurrently with the first datagrams is the collector's business; only the outcome after both have completed is judged")
 	run.Finish()
 }
